@@ -31,15 +31,47 @@ type c47Chain struct {
 	nextHandler  int
 	submitBlocks []uint64
 	submitIndex  []group.MemberIndex
-	subscribedAt []uint64
+
+	// landDuringQuery: another member's result is accepted by the chain (and
+	// announced to whoever is subscribed at that instant) while the member's
+	// IsGroupRegistered query is in flight: the answer was computed before.
+	landDuringQuery bool
+	landed          chan struct{} // closed once that happened
+	landHandlers    []func(*event.DKGResultSubmission)
+	landLost        bool          // nobody was subscribed at that instant
+	landDelivered   chan struct{} // closed once the subscribers took the event
 }
 
 func (c *c47Chain) GetConfig() *beaconchain.Config { return c.cfg }
 
 func (c *c47Chain) IsGroupRegistered(groupPublicKey []byte) (bool, error) {
 	c.mu.Lock()
-	defer c.mu.Unlock()
-	return c.registered, nil
+	answer := c.registered
+	if !c.landDuringQuery || c.registered {
+		c.mu.Unlock()
+		return answer, nil
+	}
+	// the answer is on its way back; now the competing result lands
+	c.landDuringQuery = false
+	c.registered = true
+	h := c.bc.Height()
+	for _, hd := range c.handlers {
+		c.landHandlers = append(c.landHandlers, hd)
+	}
+	hs := c.landHandlers
+	c.landLost = len(hs) == 0
+	c.mu.Unlock()
+	if len(hs) > 0 {
+		// chain events are delivered by the chain's own routine
+		go func() {
+			for _, hd := range hs {
+				hd(&event.DKGResultSubmission{MemberIndex: 1, GroupPublicKey: []byte{0xAB}, BlockNumber: h})
+			}
+			close(c.landDelivered)
+		}()
+	}
+	close(c.landed)
+	return answer, nil
 }
 
 func (c *c47Chain) OnDKGResultSubmitted(h func(*event.DKGResultSubmission)) subscription.EventSubscription {
@@ -161,11 +193,13 @@ func TestVerif_C47_DKGResultSubmitHistory(t *testing.T) {
 		}
 		kinds := []string{"none", "none", "registered"}
 		if arrive < slot {
-			kinds = append(kinds, "before", "before", "just-before", "just-before")
+			kinds = append(kinds, "before", "before", "just-before", "just-before", "during-query", "during-query")
 		}
 		kind := rapid.SampledFrom(kinds).Draw(t, "competing")
 		var eventBlock uint64
 		switch kind {
+		case "during-query":
+			eventBlock = arrive
 		case "before":
 			eventBlock = uint64(rapid.IntRange(int(arrive), int(slot)-1).Draw(t, "eventBlock"))
 		case "just-before":
@@ -175,7 +209,8 @@ func TestVerif_C47_DKGResultSubmitHistory(t *testing.T) {
 
 		bc := verifkit.NewFakeBlockCounter(arrive)
 		ch := &c47Chain{cfg: &beaconchain.Config{GroupSize: n, HonestThreshold: honest, ResultPublicationBlockStep: step, RelayEntryTimeout: uint64(n) * step},
-			bc: bc, handlers: map[int]func(*event.DKGResultSubmission){}, registered: kind == "registered"}
+			bc: bc, handlers: map[int]func(*event.DKGResultSubmission){}, registered: kind == "registered",
+			landDuringQuery: kind == "during-query", landed: make(chan struct{}), landDelivered: make(chan struct{})}
 		member := NewSubmittingMember(&testutils.MockLogger{}, index)
 		done := make(chan error, 1)
 		go func() {
@@ -194,13 +229,74 @@ func TestVerif_C47_DKGResultSubmitHistory(t *testing.T) {
 				t.Fatalf("VERIF-INCONCLUSIVE: submitter did not return after %s; %s", what, desc)
 			}
 		}
-		if kind == "registered" || arrive >= slot {
+		eventDelivered, eventLost, ignoredEvent := false, false, false
+		// probeAgain: the member leaves - or, if it ignores the event, comes
+		// back to its select and takes a second copy of it (the probing
+		// goroutine stays parked when the member has left, exactly like a
+		// late chain event would)
+		probeAgain := func(hs []func(*event.DKGResultSubmission), h uint64) {
+			again := make(chan struct{})
+			go func() {
+				for _, hd := range hs {
+					hd(&event.DKGResultSubmission{MemberIndex: 1, GroupPublicKey: []byte{0xAB}, BlockNumber: h})
+				}
+				close(again)
+			}()
+			select {
+			case result = <-done:
+				finished = true
+			case <-again:
+				ignoredEvent = true
+			case <-time.After(c47Wait):
+				fmt.Println("VERIF-INCONCLUSIVE: member neither left nor kept listening after the result-submitted event")
+				t.Fatalf("VERIF-INCONCLUSIVE: member stuck; %s", desc)
+			}
+		}
+		if kind == "during-query" {
+			select {
+			case <-ch.landed:
+			case result = <-done:
+				finished = true
+			case <-time.After(c47Wait):
+				fmt.Println("VERIF-INCONCLUSIVE: member did not query the chain state")
+				t.Fatalf("VERIF-INCONCLUSIVE: no IsGroupRegistered query; %s", desc)
+			}
+			landedAlready := false
+			select {
+			case <-ch.landed:
+				landedAlready = true
+			default:
+			}
+			if finished && !landedAlready {
+				t.Fatalf("member returned (%v) without asking the chain whether the result is already there; %s", result, desc)
+			}
+			if finished {
+				// a quick member: asked, got the announcement and left before
+				// the harness looked
+				eventDelivered = !ch.landLost
+				eventLost = ch.landLost
+			} else if ch.landLost {
+				// nobody was subscribed when the result was announced
+				eventLost = true
+			} else {
+				select {
+				case <-ch.landDelivered:
+				case <-time.After(c47Wait):
+					fmt.Println("VERIF-INCONCLUSIVE: result-submitted event not taken by the member")
+					t.Fatalf("VERIF-INCONCLUSIVE: event not consumed; %s", desc)
+				}
+				eventDelivered = true
+				probeAgain(ch.landHandlers, arrive)
+			}
+		}
+		if finished {
+			// left already
+		} else if kind == "registered" || arrive >= slot {
 			waitDone("start (nothing to wait for)")
 		} else if !verifkit.Eventually(c47Wait, func() bool { p, _ := bc.Pending(); return p >= 1 || len(done) > 0 }) {
 			fmt.Println("VERIF-INCONCLUSIVE: DKG result submitter did not start waiting")
 			t.Fatalf("VERIF-INCONCLUSIVE: submitter did not register its waiter; %s", desc)
 		}
-		eventDelivered, eventLost, ignoredEvent := false, false, false
 		for !finished {
 			select {
 			case result = <-done:
@@ -230,26 +326,7 @@ func TestVerif_C47_DKGResultSubmitHistory(t *testing.T) {
 					t.Fatalf("VERIF-INCONCLUSIVE: event not consumed; %s", desc)
 				}
 				eventDelivered = true
-				// the member leaves - or, if it ignores the event, comes back
-				// to its select and takes a second copy of it (the probing
-				// goroutine stays parked when the member has left, exactly like
-				// a late chain event would)
-				again := make(chan struct{})
-				go func() {
-					for _, hd := range hs {
-						hd(&event.DKGResultSubmission{MemberIndex: 1, GroupPublicKey: []byte{0xAB}, BlockNumber: h})
-					}
-					close(again)
-				}()
-				select {
-				case result = <-done:
-					finished = true
-				case <-again:
-					ignoredEvent = true
-				case <-time.After(c47Wait):
-					fmt.Println("VERIF-INCONCLUSIVE: member neither left nor kept listening after the result-submitted event")
-					t.Fatalf("VERIF-INCONCLUSIVE: member stuck; %s", desc)
-				}
+				probeAgain(hs, h)
 				continue
 			}
 			if h > slot+2 {
@@ -284,7 +361,7 @@ func TestVerif_C47_DKGResultSubmitHistory(t *testing.T) {
 			if len(blocks) != 0 {
 				t.Fatalf("member submitted although the group was already registered; %s", full)
 			}
-		case "before", "just-before":
+		case "before", "just-before", "during-query":
 			if len(blocks) != 0 {
 				lost := ""
 				if eventLost {
@@ -300,6 +377,6 @@ func TestVerif_C47_DKGResultSubmitHistory(t *testing.T) {
 				t.Fatalf("submitted as member %d, expected %d; %s", idx[0], index, full)
 			}
 		}
-		st.Case(kind == "just-before" || kind == "before", full, "competing:"+kind, fmt.Sprintf("arrived-late:%v", arrive > slot), fmt.Sprintf("last-member:%v", int(index) == n), fmt.Sprintf("subscriptions-left:%d", live))
+		st.Case(kind == "just-before" || kind == "before" || kind == "during-query", full, "competing:"+kind, fmt.Sprintf("arrived-late:%v", arrive > slot), fmt.Sprintf("last-member:%v", int(index) == n), fmt.Sprintf("subscriptions-left:%d", live))
 	})
 }
